@@ -11,7 +11,9 @@ RULE = (
     "drawn AT the values occurring in the fully modified reads (length +-1, exact N count and N fraction, expected "
     "errors). Oracle: reference model (documented criteria evaluated on the reference-modified read in the fixed "
     "order; first that applies consumes the read) -> expected content of the main output and of every redirect file, "
-    "compared record by record. Non-trivial: some read (or mate) satisfies >= 2 filter criteria (so the order "
+    "compared record by record. Sub-check 'boundary' (sweep) puts one read exactly on / beside each threshold: every "
+    "(length, N count) whose fraction is a short decimal with --max-n written at that fraction, -m/-M at the length. "
+    "Non-trivial: some read (or mate) satisfies >= 2 filter criteria (so the order "
     "matters) or sits exactly on a threshold; distinct = distinct canonical JSON."
 )
 ASSUMPTIONS = [
@@ -21,6 +23,13 @@ ASSUMPTIONS = [
 
 
 def nontrivial(sc, ev):
+    try:
+        return _nontrivial(sc, ev)
+    except model.Ambiguous:
+        return False
+
+
+def _nontrivial(sc, ev):
     f = ev.fopts
     for (a, b, ia, ib), fate in zip(ev.finals, ev.fates):
         for rec, info, side in ((a, ia, 0), (b, ib, 1)):
@@ -48,9 +57,85 @@ def check(sc, ctx):
         ctx.nontrivial_case({"args": ev.args, "fates": ev.fates})
 
 
-SUBS = {"filters": Sub(strategy=lambda tier: routing.routing_case("filters", "filters"), check=check)}
+# ----------------------------------------------------------------------------- criteria on the boundary
+def check_boundary(case, ctx):
+    """One criterion, one read sitting exactly on / just beside the threshold, through the command line."""
+    from fractions import Fraction
+    from lib import cli
+
+    kind, L, k, cut = case["kind"], case["len"], case["k"], case["cutoff"]
+    if kind == "max_n":
+        seq = "N" * k + "A" * (L - k)
+        if L > 1 and k > 1:
+            seq = "n" + seq[1:]  # lower-case n counts as well
+        opt = ["--max-n", cut]
+        want = Fraction(cut)
+        exceeds = (L > 0 and Fraction(k, L) > want) if want < 1 else k > want
+    elif kind == "m":
+        seq = "A" * L
+        opt = ["-m", cut]
+        exceeds = L < int(cut)
+    else:
+        seq = "A" * L
+        opt = ["-M", cut]
+        exceeds = L > int(cut)
+    recs = [("r0x", "ACGT", "IIII"), ("r1x", seq, "I" * len(seq)), ("r2x", "ACGTA", "IIIII")]
+    args = opt + ["-o", "out.fastq", "in.fastq"]
+    r = cli.run(args, {"in.fastq": cli.fastq(recs)})
+    if r.exit != 0:
+        raise Violation(f"cutadapt failed on {args}: {r.errors} {r.tb}")
+    ids = [x[0] for x in r.records("out.fastq")]
+    kept = "r1x" in ids
+    ctx.label("kind:" + kind)
+    if kept == exceeds:
+        what = f"{k} N in {L} bases" if kind == "max_n" else f"length {L}"
+        raise Violation(f"{' '.join(opt)}: read with {what} was {'kept' if kept else 'filtered'}, the documented criterion "
+                        f"says it {'exceeds' if exceeds else 'does not exceed'} the threshold", observed=ids, tag="boundary")
+    ctx.nontrivial_case({"args": args, "kept": kept})
+
+
+def sweep_boundary(spec):
+    """All (length, N count) pairs whose N fraction is a decimal with at most three digits: the threshold written
+    exactly at the fraction (kept), and one N more (filtered); length thresholds at the length and beside it."""
+    from fractions import Fraction
+
+    part, of = spec["part"], spec["of"]
+    i = 0
+    for L in range(1, spec["maxlen"] + 1):
+        for k in range(0, L + 1):
+            fr = Fraction(k, L)
+            if fr >= 1 or (fr * 1000).denominator != 1:
+                continue
+            i += 1
+            if i % of != part:
+                continue
+            cut = str(float(fr)) if fr else "0.0"
+            yield {"sub": "boundary", "kind": "max_n", "len": L, "k": k, "cutoff": cut}
+            if k + 1 <= L:
+                yield {"sub": "boundary", "kind": "max_n", "len": L, "k": k + 1, "cutoff": cut}
+    if part == 0:
+        for L in range(0, 40):
+            for d in (-1, 0, 1):
+                if L + d >= 0:
+                    yield {"sub": "boundary", "kind": "m", "len": L, "k": 0, "cutoff": str(L + d)}
+                    yield {"sub": "boundary", "kind": "M", "len": L, "k": 0, "cutoff": str(L + d)}
+        for L in (3, 10):
+            for k in range(0, L + 1):
+                for cut in ("1", "2", "3.0", "5"):
+                    yield {"sub": "boundary", "kind": "max_n", "len": L, "k": k, "cutoff": cut}
+
+
+SWEEP_DOC = ("criteria on the boundary: every (length <= bound, N count) pair whose N fraction is a decimal with <= 3 digits, "
+             "threshold written exactly at the fraction and one N more; -m/-M at the read length and +-1")
+
+SUBS = {
+    "filters": Sub(strategy=lambda tier: routing.routing_case("filters", "filters"), check=check),
+    "boundary": Sub(check=check_boundary, sweep=sweep_boundary),
+}
 
 
 def plan(tier):
-    n, per = (14, 500) if tier == "quick" else (14, 15000)
-    return [{"sub": "filters", "kind": "hyp", "examples": per} for _ in range(n)]
+    n, per = (12, 500) if tier == "quick" else (12, 15000)
+    maxlen, parts = (100, 4) if tier == "quick" else (200, 8)
+    return [{"sub": "filters", "kind": "hyp", "examples": per} for _ in range(n)] + \
+           [{"sub": "boundary", "kind": "sweep", "maxlen": maxlen, "part": i, "of": parts} for i in range(parts)]
